@@ -68,7 +68,8 @@ func Generate(w io.Writer, filename string, metaData *MetaData, injectors []*Inj
 
 // isContextType checks if a type is context.Context
 func isContextType(t types.Type) bool {
-	if named, ok := t.(*types.Named); ok {
+	// an alias of context.Context (type Ctx = context.Context, golang.org/x/net/context.Context) is context.Context
+	if named, ok := types.Unalias(t).(*types.Named); ok {
 		if obj := named.Obj(); obj != nil && obj.Pkg() != nil {
 			return obj.Pkg().Path() == contextPkgPath && obj.Name() == contextTypeName
 		}
